@@ -555,7 +555,7 @@ theorem atom_bytes_pos (x : Obj) (h : FlatOk x) (ns : Bool) (bs : Bytes) (ns' : 
   | int i =>
     simp [fmtObj] at hb; rw [← hb.1]
     have := h.ne
-    cases hd : intToDec i with
+    cases hd : intDec i with
     | nil => exact absurd hd this
     | cons c tl => simp; omega
   | real t =>
